@@ -98,7 +98,7 @@ def classifyAlpha (bits : Nat) : Option AlphaClass :=
 inductive AlphaScalar where
   | one                   -- value 1, tensor scale = alpha
   | zero                  -- value 0, tensor scale = 1 (alpha at or near zero)
-  | mulScale              -- int32 path: value = `elementwise_mul_scale(ifm_scale, alpha, ofm_scale)[0]`, tensor scale = alpha
+  | mulScale              -- int32 path: value = `elementwise_mul_scale(ifm_scale, alpha, ofm_scale)[0]` (negative); tensor scale = |alpha| (repair C06-20; alpha before)
   | prelu                 -- value and explicit scaling taken from `attrs["alpha_scaling"]`
 deriving Repr, DecidableEq, Inhabited
 
